@@ -276,6 +276,7 @@ class Ctx:
         self.fallback = set()
         self.known = [k for k in load_known() if k.get('property') == pid and k.get('status') == 'known']
         self.rng = common.mk_rng(seed, pid)
+        self.zero_labels = getattr(mod, 'ZERO_LABELS', False) if mod is not None else False      # True | set of stream names | False
 
     def broken(self, what, text):
         self.broken_items.append((what, text))
@@ -291,9 +292,25 @@ class Ctx:
         cases = list(cases)
         lines = [model_line(c) for c in cases]
         mouts = common.run_model(lines)
-        nd = 0
+        self._nd = 0
         for c, mo in zip(cases, mouts):
             self.evaluations += 1
+            # a share of the cases is put to the implementation with candidates numbered from 0 (common.LABEL_MODE); a case that
+            # was reported carries the mode with it (_labels), so that its replay asks the same question
+            lm = c.get('_labels') or ('ints0' if (self.zero_labels is True or (self.zero_labels and stream in self.zero_labels)) and int(common.case_hash(c), 16) % 4 == 0
+                                       and stream != 'replay' else 'std')
+            if lm != 'std':
+                c = dict(c, _labels=lm)
+                self.dist['labels:' + lm] += 1
+            common.LABEL_MODE[0] = lm
+            try:
+                self._one(stream, c, mo, lines, impl, canon, nontrivial, spec, known_class, limit)
+            finally:
+                common.LABEL_MODE[0] = 'std'
+        self.streams[stream] = dict(cases=len(cases), deviations=self._nd)
+
+    def _one(self, stream, c, mo, lines, impl, canon, nontrivial, spec, known_class, limit):
+        if True:
             r = common.call_impl(lambda: impl(c), limit)
             if r[0] == 'ok':
                 io = r[1]
@@ -305,7 +322,7 @@ class Ctx:
                 self.nontrivial.add(common.case_hash(c))
             if mo.startswith('(2') or mo.startswith('(3'):
                 self.broken('harness', 'model rejected its input: %s -> %s' % (lines[0][:200], mo))
-                continue
+                return
             cm = canon(c, mo) if canon else mo
             ci = canon(c, io) if canon else io
             why = None
@@ -320,11 +337,10 @@ class Ctx:
                     self.checker_false += 1
                     why = w2
             if why:
-                nd += 1
+                self._nd += 1
                 self.report(stream, c, io, mo, why, known_class)
             elif len(self.samples) < 3 and (nontrivial is None or nontrivial(c)):
                 self.samples.append(dict(stream=stream, case=c, impl=io, model=mo))
-        self.streams[stream] = dict(cases=len(cases), deviations=nd)
 
     def report(self, stream, case, io, mo, why, known_class=None):
         kid = known_class(case, io, mo) if known_class else None
